@@ -35,9 +35,17 @@ CropFails(ev) ==
 (* pairs decoded from the real result; radius in pixel units (no ties).        *)
 Blocked(n, r) == {<<i, j>> : i \in Frequencies(n[1]), j \in Frequencies(n[2])} \cap
                  {<<i, j>> \in (-(n[1])..n[1]) \X (-(n[2])..n[2]) : RLe(RInt(i * i + j * j), RMul(r, r))}
+(* The effective radius (pixel units, isotropic sampling): the given radius, else the semiangle cutoff recorded in the metadata,  *)
+(* else just over one pixel (abTEM: 1.0001; on the integer lattice any value in (1, sqrt 2) blocks the same pixels; 101/100      *)
+(* keeps TLC's 32-bit products small); plus a margin of one pixel when margin is True, or when it is left at its default and the metadata  *)
+(* records a semiangle cutoff (documented: "Margin is true by default for diffraction patterns with semiangle_cutoff").          *)
+EffectiveRadius(ev) ==
+  LET base == IF ev.radius_given # << >> THEN ev.radius_given ELSE IF ev.has_cutoff THEN ev.cutoff ELSE <<101, 100>>
+      m == IF ev.margin = "default" THEN ev.has_cutoff ELSE ev.margin = "true"
+  IN  IF m THEN RAdd(base, RInt(1)) ELSE base
 BlockFails(ev) ==
   IF ev.raised THEN {"raised"}
-  ELSE (IF {<<ev.zeroed[k][1], ev.zeroed[k][2]>> : k \in 1..Len(ev.zeroed)} = Blocked(ev.n, ev.radius) THEN {} ELSE {"blocked_pixel_set"})
+  ELSE (IF {<<ev.zeroed[k][1], ev.zeroed[k][2]>> : k \in 1..Len(ev.zeroed)} = Blocked(ev.n, EffectiveRadius(ev)) THEN {} ELSE {"blocked_pixel_set"})
   \cup (IF ev.others_unchanged THEN {} ELSE {"other_pixels_changed"})
 
 (* C40: "the center of mass ... including for a single bright pixel": the      *)
